@@ -74,6 +74,9 @@ func copyTree(src, dst string) {
 	}
 }
 
+// SigEmptyLabel: known-finding class (empty-valued caller labels are dropped by the metadata store).
+const SigEmptyLabel = "C09-empty-valued-label-not-restored"
+
 func run(c *Case) []snapx.Problem {
 	var problems []snapx.Problem
 	problem := func(sig, format string, a ...any) {
@@ -168,6 +171,32 @@ func run(c *Case) []snapx.Problem {
 		m2.SeedIDs(preIDs, touched)
 	}
 	c.View = m2.View()
+	// clause: mounted again WITH THE LABELS IT WAS CREATED WITH: compare what the backend gets at restore with what
+	// the backend of the dead process saw when the snapshot was created (plus the remote mark the snapshotter adds),
+	// unless the labels were replaced by Update since. Labels passed with an EMPTY value are not persisted
+	// (boltutil.WriteLabels): that difference is the known finding below, every other difference a violation.
+	m.FS.Lock()
+	created := map[int]snapx.Labels{}
+	for id, l := range m.FS.Created {
+		created[id] = l
+	}
+	m.FS.Unlock()
+	if !m.UpdatedUnknown {
+		for _, e := range c.Events {
+			cl, known := created[e.D.Id]
+			if e.Ev != "mount" || !known || m.UpdatedIDs[e.D.Id] {
+				continue
+			}
+			cl.R = true
+			switch {
+			case e.L == cl:
+			case e.L == cl.Stored():
+				problem(SigEmptyLabel, "remote snapshot id %d was created with labels %+v (an empty-valued label among them) and is re-mounted after restart with %+v: the empty-valued label is not persisted", e.D.Id, cl, e.L)
+			default:
+				problem("", "remote snapshot id %d was created with labels %+v but is re-mounted after restart with %+v", e.D.Id, cl, e.L)
+			}
+		}
+	}
 	// clause: every remote snapshot mounted again with the labels it is recorded with, nothing else mounted
 	var wantL, gotL []string
 	for _, e := range c.View.Walk {
@@ -387,6 +416,19 @@ func main() {
 		corpus = append(corpus, Case{Pre: chain, Crash: snapx.Op{Op: "prepare", Key: 4, Parent: 2, L: L(5), MOK: true}, KSeed: k,
 			Allow: k%2 == 0, NR: k == 5, MBad: []int{[]int{9, 1, 2, 9, 1, 9, 9}[k]},
 			Ops: []snapx.Op{cleanup, {Op: "prepare", Key: 6, Parent: 2, L: N, MOK: true}, {Op: "remove", Key: 3, Parent: -1, L: N}}})
+	}
+	// remote snapshots created with a label outside the containerd.io/snapshot namespace and with an empty-valued
+	// label; crash of a later call; strict restart must hand the backend the creation-time labels again
+	{
+		rich := []snapx.Op{
+			{Op: "prepare", Key: 0, Parent: -1, L: snapx.Labels{T: 1, E: 2, U: 3}, MOK: true},
+			{Op: "prepare", Key: 0, Parent: 1, L: snapx.Labels{T: 2, E: 3}, MOK: true},
+			{Op: "prepare", Key: 0, Parent: 2, L: snapx.Labels{T: 3, E: 1, U: 1}, MOK: true},
+		}
+		for k := 0; k < 3; k++ {
+			corpus = append(corpus, Case{Pre: rich, Crash: snapx.Op{Op: "prepare", Key: 4, Parent: 3, L: snapx.Labels{T: 5, E: 2}, MOK: true}, KSeed: 4 + k,
+				Allow: k == 1, Ops: []snapx.Op{cleanup, {Op: "mounts", Key: 4, Parent: -1, L: N}}})
+		}
 	}
 	// crash inside the very first createSnapshot: Cleanup must reclaim the temp / orphan directory (fixed finding F61)
 	for k := 0; k < 3; k++ {
